@@ -1,5 +1,8 @@
 import Abmarl.Props.C07
 import Abmarl.Props.Examples
+import Abmarl.Props.Corridor
+import Abmarl.Props.MultiGrid
+import Abmarl.Props.Reach
 #print axioms Abmarl.C07_fair_turns_and_progress
 #print axioms Abmarl.C07_every_call_returns
 #print axioms Abmarl.C07_stub
@@ -17,3 +20,12 @@ import Abmarl.Props.Examples
 #print axioms Abmarl.C07_TrafficCorridor
 #print axioms Abmarl.Ex.ex_WF
 #print axioms Abmarl.C07_MultiMaze
+#print axioms Abmarl.C07_MultiCorridor
+#print axioms Abmarl.C07_MultiCorridor_every_call_returns
+#print axioms Abmarl.Cor.cor_WF
+#print axioms Abmarl.C07_MultiAgentGridSim
+#print axioms Abmarl.C07_MultiAgentGridSim_every_call_returns
+#print axioms Abmarl.MAG.mag_WF
+#print axioms Abmarl.C07_ReachTheTarget
+#print axioms Abmarl.C07_ReachTheTarget_every_call_returns
+#print axioms Abmarl.RT.rt_WF
